@@ -536,3 +536,23 @@ package document
 //@   ensures fresh(result0) && fresh(result1)
 //@   assigns nothing
 //@   safety all
+
+// ---------------------------------------------------------------- C08 / C11: storing a data group that was read
+//@ pred supportedDG(d int) { d == 1 || d == 2 || d == 7 || (11 <= d && d <= 16) }
+//@ pred dgHeld(doc Document, d int) { (d == 1 && doc.Mf.Lds1.Dg1 != nil) || (d == 2 && doc.Mf.Lds1.Dg2 != nil) || (d == 7 && doc.Mf.Lds1.Dg7 != nil) || (d == 11 && doc.Mf.Lds1.Dg11 != nil)
+//@        || (d == 12 && doc.Mf.Lds1.Dg12 != nil) || (d == 13 && doc.Mf.Lds1.Dg13 != nil) || (d == 14 && doc.Mf.Lds1.Dg14 != nil) || (d == 15 && doc.Mf.Lds1.Dg15 != nil) || (d == 16 && doc.Mf.Lds1.Dg16 != nil) }
+// NewDG parses the bytes with the constructor of the addressed group and stores the result there: an unsupported number is
+// an error, empty bytes leave the group absent, otherwise the group is held exactly when no error is returned; no other
+// group changes, and a held DG14 has its security infos.
+//@ func (doc *Document) NewDG
+//@   props C08 C11
+//@   requires doc != nil
+//@   ensures "unsupported-number-is-an-error": !supportedDG(dg) ==> err != nil
+//@   ensures "empty-bytes-leave-the-group-absent": supportedDG(dg) && len(data) < 1 ==> err == nil && !dgHeld(*doc, dg)
+//@   ensures "held-iff-no-error": supportedDG(dg) && len(data) >= 1 ==> (dgHeld(*doc, dg) == (err == nil))
+//@   ensures "no-other-group-changes": (dg != 1 ==> doc.Mf.Lds1.Dg1 == old(doc.Mf.Lds1.Dg1)) && (dg != 2 ==> doc.Mf.Lds1.Dg2 == old(doc.Mf.Lds1.Dg2)) && (dg != 7 ==> doc.Mf.Lds1.Dg7 == old(doc.Mf.Lds1.Dg7))
+//@        && (dg != 11 ==> doc.Mf.Lds1.Dg11 == old(doc.Mf.Lds1.Dg11)) && (dg != 12 ==> doc.Mf.Lds1.Dg12 == old(doc.Mf.Lds1.Dg12)) && (dg != 13 ==> doc.Mf.Lds1.Dg13 == old(doc.Mf.Lds1.Dg13))
+//@        && (dg != 14 ==> doc.Mf.Lds1.Dg14 == old(doc.Mf.Lds1.Dg14)) && (dg != 15 ==> doc.Mf.Lds1.Dg15 == old(doc.Mf.Lds1.Dg15)) && (dg != 16 ==> doc.Mf.Lds1.Dg16 == old(doc.Mf.Lds1.Dg16))
+//@   ensures "dg14-complete": dg == 14 && doc.Mf.Lds1.Dg14 != nil ==> doc.Mf.Lds1.Dg14.SecInfos != nil
+//@   assigns doc.Mf.Lds1.Dg1, doc.Mf.Lds1.Dg2, doc.Mf.Lds1.Dg7, doc.Mf.Lds1.Dg11, doc.Mf.Lds1.Dg12, doc.Mf.Lds1.Dg13, doc.Mf.Lds1.Dg14, doc.Mf.Lds1.Dg15, doc.Mf.Lds1.Dg16
+//@   safety all
